@@ -226,7 +226,9 @@ def run(ck):
     ret = [s for s in rmatch.body if isinstance(s, ast.Return) and isinstance(s.value, ast.Call)]
     rd = single_def(rmatch, 'residue')
     ck.ob('DT-terminal', mod.loc(rmatch), len(ret) == 1 and u(ret[0].value) == '_subdict(resspec, residue)' and rd is not None and
-          "'chain resid resname insertion_code'.split()" in u(rd) and 'res_node.get(key)' in u(rd),
+          isinstance(rd, ast.DictComp) and len(rd.generators) == 1 and not rd.generators[0].ifs and
+          list(try_fold(rd.generators[0].iter, default=None) or ()) == ['chain', 'resid', 'resname', 'insertion_code'] and
+          u(rd.key) == u(rd.generators[0].target) and u(rd.value) == 'res_node.get({})'.format(u(rd.generators[0].target)),
           'the parts are compared with chain, resid, resname and insertion code of the residue', key='DT-terminal|fields')
 
     # ------------------------------------------------------------ specification parser: the explicit separator
